@@ -223,3 +223,25 @@ B('c07-reindex-like-labels', 'C07', ALIGN, "            newaxis = axes[ax.name].
 N('c07-n-rename', 'C07', ALIGN, "newobj", "result", 'rename', all=True)
 N('c07-n-temp-labels', 'C07', ALIGN, "    indices = locate_many(ax.values, values, side=method or 'left')", "    labels = ax.values\n    indices = locate_many(labels, values, side=method or 'left')", 'temporary')
 N('c07-n-kw-order', 'C07', ALIGN, "newobj.put(mask, fill_value, axis=axis, inplace=True, indexing=\"position\", cast=True)", "newobj.put(mask, fill_value, cast=True, indexing=\"position\", inplace=True, axis=axis)", 'keyword order')
+
+# ------------------------------------------------------------------------------- C08
+B('c08-F16-percentile-attrs', ['C08', 'C16'], STATS, "    results.attrs.update(a.attrs) # keep metadata, like the other along-axis transforms\n", "", 'reintroduce F16')
+B('c08-filter-by-position', 'C08', TRANS, "        newaxes = [ax for ax in obj.axes if ax.name != name]", "        newaxes = [ax for i, ax in enumerate(obj.axes) if i != idx]", 'seeded C08-1: negative positions')
+B('c08-filter-other-name', 'C08', TRANS, "        newaxes = [ax for ax in obj.axes if ax.name != name]", "        newaxes = [ax for ax in obj.axes if ax.name != obj.dims[0]]", 'always drops the first axis')
+B('c08-axis-kw', 'C08', TRANS, "    kwargs['axis'] = idx # only pass axis, not skipna", "    kwargs['axis'] = 0 # only pass axis, not skipna", 'reduces along axis 0')
+B('c08-attrs-dropped', ['C08', 'C16'], TRANS, "    newobj = obj._constructor(result, newaxes, **obj.attrs)\n\n    # add stamp", "    newobj = obj._constructor(result, newaxes)\n\n    # add stamp", 'metadata lost')
+B('c08-name-from-other-resolution', 'C08', BASES, "        name = self.axes[idx].name\n        return idx, name", "        name = self.axes[0].name\n        return idx, name", 'name of another axis')
+B('c08-str-resolution', 'C08', BASES, "            idx = self.dims.index(axis)\n\n        elif type(axis) is int:", "            idx = len(self.dims) - 1 - self.dims[::-1].index(axis)\n\n        elif type(axis) is int:", 'unusual but equivalent? no: flagged as unknown')
+B('c08-deal-insert', ['C08', 'C11'], TRANS, "        idx = 0\n        newobj = obj.flatten(axis, insert=idx)", "        idx = 0\n        newobj = obj.flatten(axis, insert=1)", 'group inserted at 1 but reduced at 0')
+B('c08-deal-name', 'C08', TRANS, "        ax = newobj.axes[0]\n        name = ax.name", "        ax = newobj.axes[-1]\n        name = ax.name", 'wrong axis name for tuple axis')
+B('c08-skipna-swapped', 'C08', TRANS, "    if skipna:\n\n        # check if present in bottleneck", "    if not skipna:\n\n        # check if present in bottleneck", 'NaN policy inverted')
+B('c08-median-plain', 'C08', TRANS, "    if funcname == 'median':\n        return _median_with_nan", "    if funcname == 'medians':\n        return _median_with_nan", 'median ignores NaNs with skipna=False')
+B('c08-masked-asarray', 'C08', TRANS, "            result = result.filled(np.nan)", "            result = np.asarray(result)", 'seeded C08-2')
+B('c08-mask-dropped', 'C08', TRANS, "            values = np.ma.array(values, mask=np.isnan(values))", "            values = np.ma.array(values)", 'NaNs not masked')
+B('c08-desc-wrong-name', 'C08', TRANS, 'var = _NumpyDesc("var")', 'var = _NumpyDesc("std")', 'a.var() computes std')
+B('c08-desc-swapped-on-class', 'C08', CLS, "    min = _transform.min\n    max = _transform.max", "    min = _transform.max\n    max = _transform.min", '')
+B('c08-percentile-axis', 'C08', STATS, "    results = np.percentile(a.values, pct, axis=pos, out=out, overwrite_input=overwrite_input)", "    results = np.percentile(a.values, pct, axis=0, out=out, overwrite_input=overwrite_input)", '')
+B('c08-percentile-keys', 'C08', STATS, "        results = da.stack(results, keys=pct, axis=newaxis) # stack in a larger DimArray", "        results = da.stack(results, axis=newaxis) # stack in a larger DimArray", 'percentile axis labelled 0..n')
+B('c08-percentile-subaxes', 'C08', STATS, "    subaxes = [ax for ax in a.axes if ax.name != nm]", "    subaxes = [ax for ax in a.axes[1:]]", '')
+N('c08-n-rename', 'C08', TRANS, "newaxes", "kept_axes", 'rename', all=True)
+N('c08-n-filter-operands', 'C08', TRANS, "        newaxes = [ax for ax in obj.axes if ax.name != name]", "        newaxes = [a_x for a_x in obj.axes if name != a_x.name]", 'operands swapped + rename')
